@@ -569,7 +569,27 @@ class Executor:
             cur.items.extend(self.iterate(v))
             self._mutated(cur, 'extend')
             return
-        self.assign(st.target, self.binop(st.op, cur, v), env, mod, aug=True)
+        r = self.binop(st.op, cur, v)
+        if isinstance(cur, VList) and cur.kind == 'ndarray' and isinstance(r, VList) and isinstance(st.target, (ast.Name, ast.Attribute)):
+            # numpy's augmented assignment on an array updates it IN PLACE: every other reference to the same array (a cache entry,
+            # the caller's argument, a full-slice view) sees the change
+            def same_shape(a, b):
+                if isinstance(a, VList) != isinstance(b, VList):
+                    return False
+                if not isinstance(a, VList):
+                    return True
+                return len(a.items) == len(b.items) and all(same_shape(x, y) for x, y in zip(a.items, b.items))
+            if same_shape(cur, r):
+                def put(a, b):
+                    for i, (x, y) in enumerate(zip(a.items, b.items)):
+                        if isinstance(x, VList):
+                            put(x, y)
+                        else:
+                            a.items[i] = y
+                put(cur, r)
+                self._mutated(cur, 'inplace-' + type(st.op).__name__)
+                return
+        self.assign(st.target, r, env, mod, aug=True)
 
     def st_Return(self, st, env, mod):
         raise _Return(self.eval(st.value, env, mod) if st.value is not None else None)
@@ -1598,6 +1618,8 @@ class Executor:
             if isinstance(k, slice):
                 if any(is_sym(x) or isinstance(x, Tm) for x in (k.start, k.stop, k.step)):
                     raise Unsupported('symbolic slice')
+                if obj.kind == 'ndarray' and k == slice(None, None, None):
+                    return obj          # a[:] of an array is a view of all of it (same memory); a[:] of a list is a copy
                 return VList(obj.items[k], obj.kind)
             if is_sym(k):
                 return self._sym_index(obj.items, k)
@@ -1606,6 +1628,8 @@ class Executor:
             if isinstance(k, tuple) and k and all(x is None or isinstance(x, int) and not isinstance(x, bool) or
                                                   (isinstance(x, slice) and all(y is None or isinstance(y, int) for y in (x.start, x.stop, x.step))) for x in k):
                 # numpy basic indexing of a (nested) array: ints select, slices restrict an axis, numpy.newaxis adds a singleton axis
+                if obj.kind == 'ndarray' and all(isinstance(x, slice) and x == slice(None, None, None) for x in k):
+                    return obj          # full slices on every indexed axis: a view of the whole array
                 def nd(a, ks):
                     if not ks:
                         return a
